@@ -107,6 +107,7 @@ fn run_once(sc: &Scenario, plan: Option<FaultPlan>, reference: Option<&Vec<Snap>
         }
         // exercise everything once more: a poisoned lock shows here
         if r.violation.is_none() && r.harness_error.is_none() {
+            let mut silenced = false;
             let ex = call(|| {
                 for s in st.bars.iter() {
                     if let Some(h) = s.handles.first() {
@@ -118,11 +119,21 @@ fn run_once(sc: &Scenario, plan: Option<FaultPlan>, reference: Option<&Vec<Snap>
                     }
                 }
                 if let Some(mp) = &st.mp {
+                    let n0 = st.term.n_calls();
                     let _ = mp.println("z");
+                    if st.term.n_calls() == n0 && !mp.is_hidden() {
+                        silenced = true;
+                    }
                     let _ = mp.clear();
                     let _ = mp.is_hidden();
                 }
             });
+            if silenced && r.violation.is_none() {
+                r.violate(
+                    "C18.keeps_working",
+                    "after the history MultiProgress::println made no terminal call at all although the MultiProgress is not hidden: an earlier failure silenced the draw target for good".to_string(),
+                );
+            }
             if let Err(p) = ex {
                 r.violate("C18.poisoned", format!("exercising the bars after the history panicked (poisoned lock?): {p}"));
             }
@@ -166,7 +177,7 @@ impl Check for C18 {
         "fault_enumeration"
     }
     fn rule_text(&self) -> String {
-        "Histories (3..15 quick / 3..30 thorough calls; standalone bars and MultiProgress with siblings; tick/inc/set_message/set_prefix/set_length/set_style/set_tab_width/println/suspend/reset/finish*/force_draw/iterator completion, add/insert*/remove/drop, mp.println/clear/suspend, optional steady ticker + simulated sleeps) are sampled from the seed. For each history the fault-free run counts the terminal calls N; then every index k in 0..N is failed in three modes (only call k fails / call k and all later calls fail / call k fails and each later call fails with probability 1/2, a fixed function of the indices) with rotating io::ErrorKind (Other, BrokenPipe, Interrupted, WouldBlock, WriteZero): exhaustive over (k, mode) per history for k < 250, every 41st index beyond that (one history in twelve ends with 240..300 forced redraws: the program carries on for long after the terminal went away). Oracle: no call panics on any simulated thread; getters (position, length, message, prefix, is_finished) after every call equal the fault-free run; mp.println/mp.clear return Err iff a terminal call failed during them; afterwards every bar, sibling and the MultiProgress are exercised and dropped without panic (a poisoned lock shows there). Non-trivial: history with N >= 3 terminal calls. Distinct = distinct scenario hash; 'executions_including_sub_runs' counts the enumerated fault runs.".into()
+        "Histories (3..15 quick / 3..30 thorough calls; standalone bars and MultiProgress with siblings; tick/inc/set_message/set_prefix/set_length/set_style/set_tab_width/println/suspend/reset/finish*/force_draw/iterator completion, add/insert*/remove/drop, mp.println/clear/suspend, optional steady ticker + simulated sleeps) are sampled from the seed. For each history the fault-free run counts the terminal calls N; then every index k in 0..N is failed in three modes (only call k fails / call k and all later calls fail / call k fails and each later call fails with probability 1/2, a fixed function of the indices) with rotating errors (io::ErrorKind Other, BrokenPipe, Interrupted, WouldBlock, WriteZero, and errors carrying an OS code: EIO, EPIPE, EINTR, EAGAIN, ENOSPC): exhaustive over (k, mode) per history for k < 250, every 41st index beyond that (one history in twelve ends with 240..300 forced redraws: the program carries on for long after the terminal went away). Oracle: no call panics on any simulated thread; getters (position, length, message, prefix, is_finished) after every call equal the fault-free run; mp.println/mp.clear return Err iff a terminal call failed during them; afterwards every bar, sibling and the MultiProgress are exercised and dropped without panic (a poisoned lock shows there), and a println on a MultiProgress that is not hidden must make terminal calls again (no failure silences the target for good). Non-trivial: history with N >= 3 terminal calls. Distinct = distinct scenario hash; 'executions_including_sub_runs' counts the enumerated fault runs.".into()
     }
     fn assumptions(&self) -> Vec<String> {
         vec![
@@ -278,6 +289,12 @@ impl Check for C18 {
                 let at = at + 1 + rng.usize_below((ops.len() - at).max(1));
                 ops.insert(at.min(ops.len()), Op::new("sleep").n(*rng.pick(&[1_500_000, 45_000_000])));
             }
+            // calls that redraw under the bar's lock while the ticker is alive
+            if rng.chance(1, 2) {
+                let tb = ops[at.min(ops.len() - 1)].n0();
+                let at2 = at + 1 + rng.usize_below((ops.len() - at).max(1));
+                ops.insert(at2.min(ops.len()), Op::new("set_tab_width").n(tb).n(*rng.pick(&[0, 2, 4])));
+            }
             sc.set("strategy", 0);
             sc.mode = format!("{}+ticker", sc.mode);
         }
@@ -322,6 +339,7 @@ impl Check for C18 {
                 return total;
             }
             if let Some((rule, d)) = o.report.violation {
+                let rule = if rule == "deadlock" { "C18.deadlock".to_string() } else { rule };
                 total.violation = Some((rule, format!("fault plan: terminal call #{k} {} -> {d}", ["fails once", "and all later calls fail", "fails and every later call fails with probability 1/2"][mode as usize % 3])));
                 total.schedule = o.report.schedule;
                 return total;
